@@ -282,7 +282,7 @@ func (ex *Exec) tryMerge(st *State, fr *Frame, cond *Term) bool {
 		phi := J.Instrs[i].(*ssa.Phi)
 		fr.Vals[phi] = vals[i]
 		if phi.Comment != "" {
-			fr.Names[phi.Comment] = nameRef{V: vals[i]}
+			fr.Names[phi.Comment] = nameRef{V: vals[i], Typ: phi.Type()}
 		}
 	}
 	fr.Pred = B
